@@ -32,4 +32,22 @@ def c16 (args : List String) : String :=
     else id ++ " bad-op"
   | _ => "bad-op"
 
+/-- `c16p <id> f64|f32 <r bits> ; p0 p1 …` → `<id> idx # logp(0) … logp(len-1)`: the probabilities are given as stored
+    (the public `probs` field was overwritten after construction; no normalisation happens then) -/
+def c16p (args : List String) : String :=
+  match args with
+  | id :: ty :: rtok :: ";" :: ps =>
+    if ty = "f64" then
+      match f64OfHex rtok, parseF64s ps with
+      | some r, some p =>
+        id ++ " " ++ toString (sampleIdx p r) ++ " # " ++ join (p.map fun x => tokD (Float.log x))
+      | _, _ => id ++ " bad-op"
+    else if ty = "f32" then
+      match f32OfHex rtok, parseF32s ps with
+      | some r, some p =>
+        id ++ " " ++ toString (sampleIdx p r) ++ " # " ++ join (p.map fun x => tokS (Float32.log x))
+      | _, _ => id ++ " bad-op"
+    else id ++ " bad-op"
+  | _ => "bad-op"
+
 end MiniMcmcVerif.Driver
